@@ -73,6 +73,8 @@ def compile_program(prog, db_kind='plain', open_opts='workers=0'):
                     model[op[1]].pop(a, None)
                 else:
                     model[op[1]][a] = b
+        elif k == 'threshold':
+            L.append(f'rotation_threshold {op[1]}')       # journal rotation at the next flush tick once the journal exceeds this size
         elif k == 'rotate':
             L.append(f'rotate {op[1]}')
         elif k == 'flush':
